@@ -37,7 +37,7 @@ SPACE = {'quick': 'all option actions x value alphabet x 3 formats; override/acc
 JOB_TIMEOUT = 2300
 
 A = ['a', ' ', "'", '"', '\\', '#', ';', '%', '[', ']', ',', '\n', '\u00e9']
-BASE_VALUES = ['simple', 'with space', 'a=b', 'a:b', 'x#y', 'x;y', "it's", 'say "hi"', 'ünï', '[x]', 'a,b', '100%', '  lead', 'trail  ', '', '"quoted"', "'q'", 'back\\slash', '$HOME', '{x}', ' Caf\u00e9 \u2603 ', 'na\u00efve']
+BASE_VALUES = ['simple', 'with space', 'a=b', 'a:b', 'x#y', 'x;y', "it's", 'say "hi"', 'ünï', '[x]', 'a,b', '100%', '  lead', 'trail  ', '', '"quoted"', "'q'", 'back\\slash', '$HOME', '{x}', ' Caf\u00e9 \u2603 ', 'na\u00efve', '1.10', '0x10', 'true', '1e3', '2020-01-01', '007', '+1', 'inf', '1_000']
 SPECIAL = {
     'privacy': [[], ['HIDDEN:a.*'], ['PUBLIC:a', 'private:b.**', 'HIDDEN:c'], ['PUBLIC:a', 'HIDDEN:b']], 'systemclass': ['pydoctor.model.System', 'nope', 'pydoctor.nope.X'],
     'htmlwriter': ['pydoctor.templatewriter.TemplateWriter', 'x.y'], 'intersphinx_cache_max_age': ['1d', '2w', 'x'], 'buildtime': ['2020-01-01 00:00:00', 'bad'],
